@@ -504,6 +504,9 @@ func (sp SynthSpec) Synthesize() (stream []byte, data []byte, strict bool, shape
 	if kinds == "E" {
 		return sp.synthWindowEdge(r)
 	}
+	if kinds == "M" {
+		return sp.synthManyLong(r)
+	}
 	for b := 0; b < sp.Blocks; b++ {
 		final := b == sp.Blocks-1
 		fault := ""
@@ -897,4 +900,55 @@ func (sp SynthSpec) synthWindowEdge(r *Rng) (stream []byte, data []byte, strict 
 	w.bits(0, 7) // end-of-block code of the fixed code
 	shape += "F"
 	return w.bytes(), out, strict, shape
+}
+
+// synthManyLong: dynamic blocks whose distance code (and sometimes literal/length code) is
+// INCOMPLETE with many long codes (11..15 bits) spread over many different short prefixes: the
+// decoder's long-code sub-tables are as crowded as the format allows.  Only literals and the
+// end-of-block code are used, so the stream is valid for a permissive inflater (unused codes);
+// a decoder may reject the header as corrupt, but must not panic or fabricate data.
+func (sp SynthSpec) synthManyLong(r *Rng) (stream []byte, data []byte, strict bool, shape string) {
+	w := &bitW{}
+	var out []byte
+	nb := 1 + r.Intn(3)
+	for b := 0; b < nb; b++ {
+		final := b == nb-1
+		litLens := make([]int, 286)
+		// a small complete literal code: 'a' and end-of-block (1 bit each), or 4 symbols of 2 bits
+		if r.Bool() {
+			litLens['a'], litLens[256] = 1, 1
+		} else {
+			litLens['a'], litLens['b'], litLens['c'], litLens[256] = 2, 2, 2, 2
+		}
+		if r.Intn(4) == 0 {
+			// incomplete literal/length code with many long codes as well
+			for i := range litLens {
+				litLens[i] = 0
+			}
+			litLens['a'], litLens[256] = 2, 2
+			for k := r.Range(20, 120); k > 0; k-- {
+				litLens[r.Intn(286)] = r.Range(13, 15)
+			}
+			litLens['a'], litLens[256] = 2, 2
+		}
+		distLens := make([]int, 30)
+		nd := r.Range(8, 30)
+		for i := 0; i < nd; i++ {
+			distLens[i] = r.Range(11, 15)
+		}
+		if r.Intn(3) == 0 {
+			for i := 0; i < nd; i++ {
+				distLens[i] = 15
+			}
+		}
+		dynHeader(r, w, final, litLens, distLens, r.Intn(3), 0, "")
+		var toks []tok
+		for k := r.Intn(30); k > 0; k-- {
+			toks = append(toks, tok{Lit: 'a'})
+			out = append(out, 'a')
+		}
+		writeTokens(w, toks, litLens, distLens, true)
+		shape += "M"
+	}
+	return w.bytes(), out, false, shape
 }
